@@ -28,7 +28,9 @@ type C17Case struct {
 	Doc    map[string]any `json:"doc,omitempty"`
 	// Written: env-enum - the value as written in the document (a reference to $V, or the value padded with blanks);
 	// Value is what V resolves to
-	Written string `json:"written,omitempty"`
+	Written string   `json:"written,omitempty"`
+	Path2   []string `json:"path2,omitempty"`
+	Kind2   string   `json:"kind2,omitempty"`
 }
 
 type schemaCtx struct {
@@ -267,6 +269,31 @@ func leafSample(l cfgLeaf) any {
 	return "x"
 }
 
+// mergeDocs overlays b on a (maps merged recursively, first list elements merged, everything else replaced).
+func mergeDocs(a, b map[string]any) map[string]any {
+	out := deepCopyMap(a)
+	for k, v := range b {
+		switch bv := v.(type) {
+		case map[string]any:
+			if av, ok := out[k].(map[string]any); ok {
+				out[k] = mergeDocs(av, bv)
+				continue
+			}
+		case []any:
+			if av, ok := out[k].([]any); ok && len(av) > 0 && len(bv) > 0 {
+				am, ok1 := av[0].(map[string]any)
+				bm, ok2 := bv[0].(map[string]any)
+				if ok1 && ok2 {
+					out[k] = []any{mergeDocs(am, bm)}
+					continue
+				}
+			}
+		}
+		out[k] = v
+	}
+	return out
+}
+
 func toJSONValue(d map[string]any) (any, error) {
 	b, err := json.Marshal(d)
 	if err != nil {
@@ -396,6 +423,33 @@ func enumC17(env *engine.Env, yield func(any) bool) {
 			}
 		}
 	}
+	if env.Thorough() {
+		// every pair of parser key paths in one document: accepted by the parser => accepted by the schema
+		for i, a := range keys {
+			for _, b := range keys[i+1:] {
+				if !yield(C17Case{Part: "path-pair", Path: pp[a].Path, Kind: pp[a].Kind, Path2: pp[b].Path, Kind2: pp[b].Kind}) {
+					return
+				}
+			}
+		}
+		// every enumerated value inside the override block of every format
+		for _, e := range c17Enums {
+			ek := strings.Join(e.path, ".")
+			if ek == "overrides.{key}" || ek == "version_schema" || ek == "platform" || ek == "arch" {
+				continue // not overridable
+			}
+			for _, v := range e.values {
+				for _, f := range Formats {
+					if ek != "contents.[].type" && f != e.format {
+						continue // the setting only means something to its own format's packager
+					}
+					if !yield(C17Case{Part: "enum-override", Path: e.path, Value: v, Format: f}) {
+						return
+					}
+				}
+			}
+		}
+	}
 	if !yield(C17Case{Part: "python-batch"}) {
 		return
 	}
@@ -426,6 +480,21 @@ func c17Doc(env *engine.Env, c C17Case) map[string]any {
 		if len(c.Path) > 3 && c.Path[2] == "contents" && c.Path[len(c.Path)-1] != "dst" {
 			setDeep(d, []string{"overrides", "{fmt}", "contents", "[]", "dst"}, "/x")
 		}
+		return d
+	case "path-pair":
+		d := c17Doc(env, C17Case{Part: "path", Path: c.Path, Kind: c.Kind})
+		d2 := c17Doc(env, C17Case{Part: "path", Path: c.Path2, Kind: c.Kind2})
+		return mergeDocs(d, d2)
+	case "enum-override":
+		inner := c17Doc(env, C17Case{Part: "enum", Path: c.Path, Value: c.Value, Format: c.Format})
+		d := c17Base()
+		ov := map[string]any{}
+		for k, v := range inner {
+			if _, base := d[k]; !base {
+				ov[k] = v
+			}
+		}
+		d["overrides"] = map[string]any{c.Format: ov}
 		return d
 	case "enum", "env-enum":
 		d := c17Base()
@@ -614,7 +683,21 @@ func checkC17(env *engine.Env, ci any) engine.Outcome {
 				viol("schema:rejects-accepted-value:"+pathKey(c.Path)+":written-as-reference", "%s written as %q (V=%q) is accepted by the parser and built by the %s packager, the schema rejects the document: %v", strings.Join(c.Path, "."), c.Written, c.Value, c.Format, serrs)
 			}
 		}
-	case "enum", "config":
+	case "path-pair":
+		d := c17Doc(env, c)
+		pOK, _, serrs, harness := judge(d)
+		if harness != "" {
+			out.HarnessError = harness
+			return out
+		}
+		out.Key = fmt.Sprintf("%s:%s:%s:%s:%s:%v:%v", c.Part, strings.Join(c.Path, "."), strings.Join(c.Path2, "."), c.Value, c.Format, pOK, len(serrs) == 0)
+		if pOK {
+			out.Nontrivial = true
+			if len(serrs) > 0 {
+				viol("schema:rejects-accepted-config:"+c.Part, "a document the parser accepts is rejected by the schema: %v\n%s", serrs, fixture.Doc(d).YAML())
+			}
+		}
+	case "enum", "config", "enum-override":
 		d := c17Doc(env, c)
 		pOK, perr, serrs, harness := judge(d)
 		if harness != "" {
@@ -622,8 +705,11 @@ func checkC17(env *engine.Env, ci any) engine.Outcome {
 			return out
 		}
 		label := c.Value
-		if c.Part == "enum" {
+		if c.Part == "enum" || c.Part == "enum-override" {
 			label = strings.Join(c.Path, ".") + "=" + c.Value
+			if c.Part == "enum-override" {
+				label = "overrides." + c.Format + "." + label
+			}
 		}
 		out.Key = fmt.Sprintf("%s:%s:%v:%v", c.Part, label, pOK, len(serrs) == 0)
 		if !pOK {
@@ -631,7 +717,7 @@ func checkC17(env *engine.Env, ci any) engine.Outcome {
 			return out
 		}
 		buildable := true
-		if c.Part == "enum" {
+		if c.Part == "enum" || c.Part == "enum-override" {
 			// the packagers must be able to build it, otherwise the value is not an accepted one
 			dd := deepCopyMap(d)
 			dd["mtime"] = PkgMTime
@@ -645,7 +731,7 @@ func checkC17(env *engine.Env, ci any) engine.Outcome {
 		}
 		out.Nontrivial = true
 		if len(serrs) > 0 {
-			if c.Part == "enum" {
+			if c.Part == "enum" || c.Part == "enum-override" {
 				cls := c.Value
 				if strings.Contains(c.Value, ":") {
 					cls = "algo:level"
